@@ -232,20 +232,25 @@ def write_replay(prop: str, payload: dict) -> str:
     return p
 
 
-def run_replay(path: str, timeout=120):
-    """Replay a counterexample in a fresh interpreter against the unstubbed code.
+def run_replay(path: str, timeout=180):
+    """Replay a counterexample in a fresh interpreter against the unstubbed code; if that does not reproduce, once more in
+    another fresh interpreter with the history priming of the check done first (--primed).
     Returns (reproduced: bool|None, text).  None = replay harness failed."""
-    try:
-        p = subprocess.run([sys.executable, "-m", "verif.replay", path], cwd=VERIF, capture_output=True, text=True,
-                           timeout=timeout, env=dict(os.environ, PYTHONPATH=VERIF))
-    except subprocess.TimeoutExpired:
-        return None, "replay timed out"
-    out = (p.stdout + p.stderr).strip()
-    if p.returncode == 1:
-        return True, out
-    if p.returncode == 0:
-        return False, out
-    return None, out
+    last = (None, "")
+    for extra in ([], ["--primed"]):
+        try:
+            p = subprocess.run([sys.executable, "-m", "verif.replay", path] + extra, cwd=VERIF, capture_output=True,
+                               text=True, timeout=timeout, env=dict(os.environ, PYTHONPATH=VERIF))
+        except subprocess.TimeoutExpired:
+            last = (None, "replay timed out")
+            continue
+        out = (p.stdout + p.stderr).strip()
+        if p.returncode == 1:
+            return True, out
+        last = (False, out) if p.returncode == 0 else (None, out)
+        if p.returncode != 0:
+            return last
+    return last
 
 
 # ---------------------------------------------------------------- parallel map
